@@ -10,22 +10,32 @@ from concurrent.futures import ThreadPoolExecutor
 from .common import Ctx, Driver, tok, uncps, REPO
 
 MANIFEST = dict(
-    text=("Lean theorems, for every table satisfying the decidable TblOK/XmlOK and ALL strings: substitute_xml and substitute_html "
-          "leave no raw < or >, every & of their output starts `name;` for a name the reader knows, reading the output back as "
-          "element text (model of html.parser + bs4 handle_entityref/handle_charref) or as a quoted attribute value (quote stripping + "
-          "html.unescape) gives the original string, quoted_attribute_value is always `q body q` with q not in body, the order of the "
-          "regex alternation is irrelevant; TblOK/XmlOK of the live tables (all alternatives parsed back from the compiled patterns, "
-          "CHARACTER_TO_HTML_ENTITY, HTML_ENTITY_TO_CHARACTER, html.entities.html5) decided by the kernel on every run. substitute_html5: "
-          "round trip proved for strings without a bare ampersand that starts a reference, refuted in general by decided witnesses "
-          "(known findings). Tie: differential runs of the four substitutions, quoting, Formatter.substitute/attribute_value and of "
-          "both reader models against the real code and the real parser: every BMP code point, every table key, every entity name "
-          "with and without ';', all strings <= 4 (thorough 5) over a 12-symbol markup alphabet, random longer strings; plus the same "
-          "substitutions through Tag.decode() for strings under every kind of parent element, custom cdata_containing_tags "
-          "configurations, and render histories on the shared registry formatters (same text in script/style first, then elsewhere)."),
+    text=("Lean theorems, for every table satisfying the decidable TblOK / XmlOK / Html5FixOK and ALL strings (no bound, lone surrogates "
+          "included): substitute_xml, substitute_html and the (repaired) substitute_html5 leave no raw < or >; every & written by "
+          "substitute_xml/html starts `name;` for a name the reader knows; reading the output back as element text (model of html.parser "
+          "convert_charrefs=False + bs4 handle_entityref/handle_charref) and as a quoted attribute value (quote stripping + html.unescape) "
+          "gives the original string — for all three substitutions; quoted_attribute_value is always `q body q` with q not in body; any "
+          "permutation of the regex alternation gives the same output; Formatter.substitute leaves a string alone exactly when its parent's "
+          "name is in the configured cdata_containing_tags (explicit empty = nothing exempt) and the round trips hold through "
+          "format_string / formatter_for_name / attribute rendering for object, registry-key and callable formatters. "
+          "_populate_class_variables is mirrored: for ANY html5 table (values of <= 2 code points) the alternatives it builds are mutually "
+          "exclusive, catch every named character, and are all named — by construction. Table obligations decided by the kernel on every "
+          "run over the WHOLE live tables (all ~1480 alternatives parsed back from the compiled patterns, every key of "
+          "html.entities.html5, the registries, HTML_DEFAULTS). 4.13.0's substitute_html5 (kept as substHtml5Old) is refuted by four decided "
+          "witnesses and proved equal to the repaired function wherever both take the same decision at every ampersand. "
+          "Tie: differential runs against the real code and the real parser: every BMP code point, every table key, every entity name with "
+          "and without ';', all strings <= 4 (thorough 5) over a 12-symbol markup alphabet, random/malformed strings; Tag.decode() for "
+          "strings under 21 parent names, parser-built string classes, custom cdata_containing_tags, render histories on the shared "
+          "formatters, XML-tree and callable formatters, list/tuple/None attribute values; _populate_class_variables on the live and on "
+          "synthetic html5 tables; eight PYTHONHASHSEED values."),
     design="7/C09",
-    note=("Text is read back inside <pre> (bs4 collapses whitespace-only strings elsewhere — builder policy, not entity handling). "
-          "Decimal references of more than 4300 digits (C06) are not generated."),
-    technique="Lean 4 proof over an abstract table + kernel-decided table obligation + exhaustive/random correspondence with the real substitution functions and the real parser",
+    note=("RECORDED, not verified: CPython's html.parser tokenizer and html.unescape — the two reader models are compared with the real "
+          "parser on every generated case. Text is read back inside <pre> (bs4 collapses whitespace-only strings elsewhere — builder "
+          "policy). Decimal references of more than 4300 digits (C06) are not generated. The name round trip of the tables "
+          "(HTML_ENTITY_TO_CHARACTER[CHARACTER_TO_HTML_ENTITY[k]] = k) is a decided fact of the live tables, not a consequence of the "
+          "construction. The exact set of strings the OLD substitute_html5 round-trips is not characterised (sufficient condition + "
+          "refutations only)."),
+    technique="Lean 4 proof over abstract tables + kernel-decided whole-table obligations + exhaustive/random correspondence with the real substitution functions, formatter glue and the real parser",
 )
 
 ALPHABET = "&<>\"';#x1alt"
@@ -167,9 +177,18 @@ def real_case(s):
                         what = f"text/attribute written with {regname}.REGISTRY[{k!r}] is read back differently"
                         obs, exp = show_text(t) + " / " + show(a), tok(s)
                 fails.append(dict(what=what, kind="formatter", kf=None, observed=obs, expected=exp))
+    memo = {}
+
+    def pb(text, quoted):
+        # most strings are written unchanged by all three substitutions: parse each distinct document once
+        key = (text, quoted)
+        if key not in memo:
+            memo[key] = parse_back(text, quoted)
+        return memo[key]
+
     for name, o in (("xml", xml), ("html", html), ("html5", html5)):
         q = E.quoted_attribute_value(o)
-        t, a = parse_back(o, q)
+        t, a = pb(o, q)
         out += [show_text(t), tok(q), show(a)]
         # --- oracle ---
         if "<" in o or ">" in o:
@@ -192,13 +211,13 @@ def real_case(s):
             br.add("classifier-hit-but-roundtrip-ok:attr")
     # the readers on the raw string (what formatter=None writes): validates the reader models on unescaped input
     if "<" not in s:
-        t, _ = parse_back(s, '""')
+        t, a = pb(s, quote)
         out.append(show_text(t))
         if t is not None and t.endswith("RUNAWAY"):
             br.add("reader:runaway")
     else:
         out.append("skip")
-    _, a = parse_back("", quote)
+        _, a = pb("", quote)
     out.append(show(a))
     if not (len(quote) >= 2 and quote[0] == quote[-1] and quote[0] in "\"'" and quote[0] not in quote[1:-1]):
         fails.append(dict(what="quoted_attribute_value(s) is not a well-formed quoted value", kind="quote", kf=None, observed=tok(quote)))
@@ -347,7 +366,8 @@ def gen_malformed(rng, count):
 # contexts, configurations and histories: Formatter.substitute decides per string, from the parent's name and the
 # formatter's cdata_containing_tags; the registry formatters are shared objects that live for the whole process
 # ---------------------------------------------------------------------------------------------------------------
-PARENTS = ["p", "textarea", "pre", "title", "template", "rt", "rp", "option", "a", "div", "td", "code", "x-custom", "scripts", "styles"]
+PARENTS = ["p", "textarea", "pre", "title", "template", "rt", "rp", "option", "a", "div", "td", "code", "x-custom", "scripts", "styles",
+           "SCRIPT", "Style", "x:script", "svg:style"]  # names are compared exactly: none of these is `script` or `style`
 EXEMPT_CANDIDATES = ["script", "style"]
 CONTEXT_TEXTS = ["a<b", "x>y", "AT&T", "&lt;b&gt; makes text bold", "&amp;", "&copy; 2024", "if (a<b && b>c) go();", "]]> <!-- & -->",
                  "é<ü", "\"q\" & 'r' <", "&#60;", "≧̸<⃒", "p > a { color: red }", "AT&T &amp; &lt;"]
@@ -362,10 +382,17 @@ def _formatter(spec):
     kind = spec["kind"]
     if kind in ("name", "default"):
         name = spec.get("name", "minimal") if kind == "name" else "minimal"
-        f = HTMLFormatter.REGISTRY[name]
+        xml = bool(spec.get("xml"))
+        f = (XMLFormatter if xml else HTMLFormatter).REGISTRY[name]
         arg = name
-        conf = {"script", "style"}
-        line = f"c09 fmt h {0 if name is None else 1} {tok(name or '')}"
+        conf = set() if xml else {"script", "style"}
+        line = f"c09 fmtstr {1 if xml else 0} key {0 if name is None else 1} {tok(name or '')}"
+    elif kind == "callable":
+        xml = bool(spec.get("xml"))
+        arg = getattr(E, spec["fn"])
+        f = (XMLFormatter if xml else HTMLFormatter)(entity_substitution=arg)  # what formatter_for_name is documented to build
+        conf = set() if xml else {"script", "style"}
+        line = f"c09 fmtstr {1 if xml else 0} callable {FN_CODE[spec['fn']]} -"
     elif kind == "registry":
         reg = XMLFormatter.REGISTRY if spec["reg"] == "x" else HTMLFormatter.REGISTRY
         f = reg[spec["name"]]
@@ -404,12 +431,30 @@ def run_scenario(steps):
     for i, st in enumerate(steps):
         s, parent, spec = uncps(st["s"]), st["parent"], st["formatter"]
         arg, f, conf, fn, line = _formatter(spec)
-        soup = BeautifulSoup("", "html.parser")
-        tag = soup.new_tag(parent)
-        tag["t"] = s
-        tag.string = s
-        soup.append(tag)
-        sub_t = f.substitute(tag.string)
+        tag = None
+        if st.get("parsed"):
+            # the element as the parser builds it: the string then has the builder's class for this container
+            # (Script, Stylesheet, TemplateString, RubyTextString, … — all subclasses of NavigableString)
+            body = s if parent in ("script", "style") else E.substitute_xml(s)
+            doc = BeautifulSoup("<%s t=%s>%s</%s>" % (parent, E.quoted_attribute_value(E.substitute_xml(s)), body, parent), "html.parser")
+            cand = doc.find(parent)
+            if cand is not None and len(cand.contents) == 1 and isinstance(cand.contents[0], NavigableString) \
+                    and str(cand.contents[0]) == s and cand.get("t") == s:
+                tag = cand
+        if tag is None:
+            soup = BeautifulSoup("", "html.parser")
+            tag = soup.new_tag(parent)
+            tag["t"] = s
+            tag.string = s
+            soup.append(tag)
+        if spec.get("xml"):
+            tag.known_xml = True  # formatter_for_name then consults XMLFormatter.REGISTRY / builds an XMLFormatter
+        # through the glue: output_ready -> format_string -> formatter_for_name -> Formatter.substitute
+        sub_t = tag.string.output_ready() if spec["kind"] == "default" else tag.string.output_ready(formatter=arg)
+        direct = f.substitute(tag.string)
+        if direct != sub_t:
+            fails.append(dict(step=i, what="NavigableString.output_ready(formatter) differs from the Formatter's substitute()", kf=None,
+                              observed=tok(sub_t), expected=tok(direct)))
         sub_a = f.attribute_value(s)
         rendered = tag.decode() if spec["kind"] == "default" else tag.decode(formatter=arg)
         corr.append((f"{line} {tok(parent)} {tok(s)}", tok(sub_t)))
@@ -442,7 +487,8 @@ def run_scenario(steps):
         if t_back != s:
             bad("element text is read back differently (the parent is not one of the formatter's cdata_containing_tags)",
                 show_text(t_back), tok(s), sub_t, classify_html5_text(sub_t) if fn == 3 else ())
-        elif spec["kind"] in ("name", "default"):
+        elif spec["kind"] in ("name", "default", "callable") and parent == parent.lower() and parent not in ("script", "style"):
+            # (html.parser reads the content of script/style raw: not a reader for substituted text — XML mode substitutes there)
             # and in place: what the parser reads from the rendered element itself
             back = BeautifulSoup(rendered, "html.parser").find(parent)
             txt = None if back is None else "".join(str(c) for c in back.contents if isinstance(c, NavigableString))
@@ -465,10 +511,23 @@ def scenarios(ctx):
             texts.append(s)
     html_specs = [{"kind": "default"}] + [{"kind": "name", "name": n} for n in ("minimal", "html", "html5", "html5-4.12", None)]
     xml_specs = [{"kind": "registry", "reg": "x", "name": n} for n in ("minimal", "html", None)]
+    glue_specs = ([{"kind": "name", "name": n, "xml": True} for n in ("minimal", "html", None)]
+                  + [{"kind": "callable", "fn": fn, "xml": x} for fn in ("substitute_xml", "substitute_html", "substitute_html5") for x in (False, True)])
     for s in texts:
         for spec in html_specs + xml_specs:
             for parent in PARENTS + EXEMPT_CANDIDATES:
                 yield "contexts", [dict(parent=parent, s=tok(s), formatter=spec)]
+    for s in texts[:10]:
+        for spec in glue_specs:
+            for parent in ("p", "script", "style", "textarea", "SCRIPT"):
+                yield "glue", [dict(parent=parent, s=tok(s), formatter=spec)]
+    # the same with elements built by the parser (string classes of the builder: TemplateString, RubyTextString, Script, …)
+    for s in texts[:12]:
+        if "</" in s or "\r" in s or "\x00" in s:
+            continue
+        for spec in html_specs[:3] + xml_specs[:1]:
+            for parent in ("p", "template", "rt", "rp", "textarea", "pre", "title", "script", "style"):
+                yield "contexts-parsed", [dict(parent=parent, s=tok(s), formatter=spec, parsed=True)]
     # custom configurations
     cds = [(None, "set"), ([], "set"), ([], "frozenset"), ([], "list"), ([], "tuple"), (["script"], "set"), (["x-custom"], "set"),
            (["pre", "script", "style"], "list")]
@@ -497,7 +556,46 @@ def scenarios(ctx):
                         yield "histories", [b, a]
 
 
+def attr_form_checks(ctx, drv):
+    """attribute values as _format_tag meets them: None, str, list, tuple — key or key="…" """
+    from bs4 import BeautifulSoup
+    from bs4.formatter import HTMLFormatter
+    vals = [("absent", None), ("str", ""), ("str", "a<b&c"), ("str", "\"q\" 'r'"), ("list", ["a\"b", "c'<d"]), ("list", ["x"]), ("list", []),
+            ("tuple", ("é&lt;", ">")), ("list", ["&amp;", "≧̸"])]
+    lines, impl, cases = [], [], []
+    for name in ("minimal", "html", "html5", "html5-4.12", None):
+        for kind, v in vals:
+            if v == "" and HTMLFormatter.REGISTRY[name].empty_attributes_are_booleans:
+                continue  # that option turns "" into a bare key (Formatter.attributes) — rendering policy, C15
+            soup = BeautifulSoup("", "html.parser")
+            tag = soup.new_tag("p")
+            tag["t"] = v
+            rendered = tag.decode(formatter=name)
+            mk = "absent" if v is None else ("str" if kind == "str" else "list")
+            mv = "-" if v is None else (tok(v) if kind == "str" else (";".join(tok(x) for x in v) or "-"))
+            lines.append(f"c09 fmtattr h {0 if name is None else 1} {tok(name or '')} {tok('t')} {mk} {mv}")
+            impl.append(tok(rendered[3:-5]) if rendered.startswith("<p ") and rendered.endswith("></p>") else "unexpected:" + tok(rendered))
+            case = {"op": "attr-form", "formatter": name, "kind": kind, "value": v if v is None or kind == "str" else list(v)}
+            cases.append(case)
+            ctx.case(("attr-form", name, kind, repr(v)))
+            ctx.count("stream:attr-forms")
+            if name is not None and v is not None and any(x.strip() for x in ([v] if kind == "str" else v)):
+                want = v if kind == "str" else " ".join(v)
+                back = BeautifulSoup(rendered, "html.parser").find("p")
+                got = None if back is None else back.get("t")
+                if got != want:
+                    ctx.violation("an attribute value (%s) rendered by Tag.decode(formatter=%r) is read back differently" % (kind, name),
+                                  case=case | {"rendered": tok(rendered)}, expected=tok(want), observed=show(got), stream="attr-forms")
+    rep = drv.ask(lines)
+    for l, a, b, c in zip(lines, impl, rep, cases):
+        if a != b:
+            ctx.corr_disagreements += 1
+            ctx.violation("model and implementation disagree (attribute rendering)", case=c | {"line": l}, observed=a, model=b,
+                          stream="attr-forms-correspondence", no_failing_input=True)
+
+
 def context_checks(ctx, drv):
+    attr_form_checks(ctx, drv)
     lines, impl, where = [], [], []
     for stream, steps in scenarios(ctx):
         fails, corr = run_scenario(steps)
@@ -524,6 +622,98 @@ def context_checks(ctx, drv):
             if not real_fail:
                 ctx.violation("model and implementation disagree (Formatter.substitute / attribute_value)", case=case | {"line": l},
                               observed=a, model=b, stream=case["stream"] + "-correspondence", no_failing_input=True)
+
+
+
+# ---------------------------------------------------------------------------------------------------------------
+# _populate_class_variables: the live tables and synthetic html5 tables against the model BS.Entities.populate*
+# ---------------------------------------------------------------------------------------------------------------
+_PARTICLE = re.compile(r"(.)\(\?!\[(.+)\]\)", re.S)
+
+
+def canonical_tables(cls):
+    """everything _populate_class_variables left on `cls`, in the driver's canonical rendering"""
+    def L(x):
+        return tok(x)
+    parts = []
+    for x in cls.CHARACTER_TO_HTML_ENTITY_WITH_AMPERSAND_RE.pattern[1:-1].split("|"):
+        m = _PARTICLE.fullmatch(x)
+        key, la = (m.group(1), m.group(2)) if m else (x, "")
+        parts.append(([ord(c) for c in key], sorted({ord(c) for c in la})))
+    parts.sort()
+    pstr = ";".join(",".join(map(str, k)) + "|" + (",".join(map(str, la)) or "-") for k, la in parts)
+    plain = sorted(x for x in cls.CHARACTER_TO_HTML_ENTITY_RE.pattern[1:-1].split("|") if x != "")  # "()" when the table is empty
+    amp_minus = sorted(x for x in cls.CHARACTER_TO_HTML_ENTITY_WITH_AMPERSAND_RE.pattern[1:-1].split("|") if x != "&")
+    ustr = ";".join(L(k) + "=" + L(v) for k, v in sorted(cls.CHARACTER_TO_HTML_ENTITY.items(), key=lambda kv: [ord(c) for c in kv[0]]))
+    nstr = ";".join(L(k) + "=" + L(v) for k, v in sorted(cls.HTML_ENTITY_TO_CHARACTER.items(), key=lambda kv: [ord(c) for c in kv[0]]))
+    so = getattr(cls, "SEMICOLON_OPTIONAL_ENTITY_RE", None)
+    legacy = sorted(set(so.pattern.split("|")) - {""}) if so is not None else []
+    lstr = ";".join(L(x) for x in legacy)
+    return f"P {pstr} U {ustr} N {nstr} L {lstr}", plain == amp_minus
+
+
+def synthetic_tables(rng, count):
+    chars = ["<", ">", "é", "ü", "≧", "≧̸", "≧⃒", "<⃒", ">⃒", "=⃥", "fj", "a", "|", "≪", "≪̸", "≪⃒", "\U0001d538", "∾̳", "ǵ",
+             "\xa0", "&"]
+    names = ["a", "b", "ab", "lt", "gt", "LT", "amp", "x1", "nvlt", "gE", "ngE", "ngeqq", "eacute", "Eacute", "z9", "Aopf", "bne", "fjlig", "nbsp"]
+    for _ in range(count):
+        k = rng.randrange(1, 10)
+        tbl = {}
+        for _ in range(k):
+            n = rng.choice(names)
+            ch = rng.choice(chars)
+            form = rng.randrange(3)
+            if form in (0, 2):
+                tbl[n + ";"] = ch
+            if form in (1, 2):
+                tbl[n] = ch if rng.random() < 0.9 else rng.choice(chars)
+        cp = {}
+        for _ in range(rng.randrange(0, 4)):
+            c = rng.choice([c for c in chars if len(c) == 1] + ["〈", "x"])
+            cp[ord(c)] = rng.choice(names)
+        yield tbl, cp
+
+
+def populate_checks(ctx, drv):
+    import bs4.dammit as D
+    from unittest import mock
+    E = _E()
+    lines, impl, cases = ["c09 populate-live"], [], [{"op": "populate", "table": "live"}]
+    real, same = canonical_tables(E)
+    impl.append(real)
+    if not same:
+        ctx.violation("CHARACTER_TO_HTML_ENTITY_WITH_AMPERSAND_RE is not CHARACTER_TO_HTML_ENTITY_RE plus '&'", case=cases[0], stream="populate")
+    for tbl, cp in synthetic_tables(ctx.rng("populate"), ctx.n(300, 3000)):
+        case = {"op": "populate", "html5": {k: tok(v) for k, v in tbl.items()}, "codepoint2name": cp}
+        Tmp = type("Tmp", (E,), {})
+        try:
+            with mock.patch.object(D, "html5", tbl), mock.patch.object(D, "codepoint2name", cp):
+                Tmp._populate_class_variables()
+            real, same = canonical_tables(Tmp)
+        except Exception as e:
+            real, same = "exc:" + type(e).__name__, True
+        items = "/".join(f"{tok(k)}:{tok(v)}" for k, v in sorted(tbl.items())) or "-"
+        cpl = "/".join(f"{k}:{tok(v)}" for k, v in cp.items()) or "-"
+        lines.append(f"c09 populate {items} {cpl}")
+        impl.append(real)
+        cases.append(case)
+        if not same:
+            ctx.violation("CHARACTER_TO_HTML_ENTITY_WITH_AMPERSAND_RE is not CHARACTER_TO_HTML_ENTITY_RE plus '&'", case=case, stream="populate")
+        # by-construction facts, directly on the real result: every alternative has a name; alternatives mutually exclusive
+        if not real.startswith("exc:"):
+            keys = [uncps(p.split("|")[0]) for p in real.split(" ")[1].split(";") if p]
+            for k in keys:
+                if k != "&" and k not in Tmp.CHARACTER_TO_HTML_ENTITY:  # '&' is added to the alternation separately (dammit.py:227)
+                    ctx.violation("an alternative of the generated regex has no name in CHARACTER_TO_HTML_ENTITY", case=case | {"key": tok(k)}, stream="populate")
+    rep = drv.ask(lines)
+    for l, a, b, c in zip(lines, impl, rep, cases):
+        ctx.case(("populate", l[:200]))
+        ctx.count("stream:populate")
+        if a != b:
+            ctx.corr_disagreements += 1
+            sec = [n for n, x, y in zip("PUNL", a.split(" ")[1::2], b.split(" ")[1::2]) if x != y] if not a.startswith("exc") else ["exception"]
+            ctx.violation("model and implementation disagree (_populate_class_variables): sections " + ",".join(sec), case=c | {"line": l[:300]},
+                          observed=a[:2000], model=b[:2000], stream="populate-correspondence", no_failing_input=True)
 
 
 # ---------------------------------------------------------------------------------------------------------------
@@ -618,6 +808,8 @@ def run(ctx: Ctx):
     formatter_and_dict_checks(ctx, drv)
     # --- the same substitutions through Tag.decode(): every parent name, custom cdata_containing_tags, histories
     context_checks(ctx, drv)
+    # --- _populate_class_variables against its model: the live tables and synthetic html5 tables
+    populate_checks(ctx, drv)
     # --- the order of the alternation (hash seed)
     seeds = (0, 1, 2, 3, 5, 8, 13, 12345)
     with ThreadPoolExecutor(max_workers=8) as ex:
@@ -687,6 +879,37 @@ def replay(path):
             print("  PROPERTY FAILS:", f["what"], "| expected", f.get("expected") and ascii(uncps(f["expected"])) if f.get("expected") and "/" not in f["expected"] else f.get("expected"),
                   "| observed", f.get("observed"), "| known-finding class:", f.get("kf"))
         return 1 if fails else 0
+    if c.get("op") == "attr-form":
+        from bs4 import BeautifulSoup
+        v = c["value"]
+        if c["kind"] == "tuple":
+            v = tuple(v)
+        soup = BeautifulSoup("", "html.parser")
+        tag = soup.new_tag("p")
+        tag["t"] = v
+        rendered = tag.decode(formatter=c["formatter"])
+        want = v if isinstance(v, str) else " ".join(v)
+        back = BeautifulSoup(rendered, "html.parser").find("p")
+        got = None if back is None else back.get("t")
+        print(f"attribute t={v!r} rendered with formatter {c['formatter']!r}: {rendered!r}; read back {got!r}; the property demands {want!r}")
+        return 0 if got == want else 1
+    if c.get("op") == "populate" and "html5" in c:
+        import bs4.dammit as D
+        from unittest import mock
+        E = _E()
+        Tmp = type("Tmp", (E,), {})
+        tbl = {k: uncps(v) for k, v in c["html5"].items()}
+        cp = {int(k): v for k, v in c["codepoint2name"].items()}
+        with mock.patch.object(D, "html5", tbl), mock.patch.object(D, "codepoint2name", cp):
+            Tmp._populate_class_variables()
+        real, same = canonical_tables(Tmp)
+        items = "/".join(f"{tok(k)}:{tok(v)}" for k, v in sorted(tbl.items())) or "-"
+        cpl = "/".join(f"{k}:{tok(v)}" for k, v in cp.items()) or "-"
+        model = Driver().ask([f"c09 populate {items} {cpl}"])[0]
+        print("html5 =", tbl, "codepoint2name =", cp)
+        print("implementation:", real[:1500])
+        print("model         :", model[:1500])
+        return 0 if real == model and same else 1
     if c.get("op") == "hashseed":
         d = {seed: hash_seed_digest(seed) for seed in (0, 1, 2, 3, 5, 8, 13, 12345)}
         print(d)
